@@ -1,46 +1,30 @@
-"""Regenerates /verif/MANIFEST.json from the table below (run by hand after editing)."""
+"""Regenerates /verif/MANIFEST.json from harness/claims/Cxx.json (one file per claimed property)
+and harness/claims/not_applicable.json (id -> reason).  Run:  /venv/bin/python harness/manifest_gen.py"""
+import glob
 import json
 import os
 
 HERE = os.path.dirname(os.path.dirname(os.path.abspath(__file__)))
-
-CHECKS = {}      # id -> dict(text, note, technique, design)
-NOT_APPLICABLE = {}
-
-
-def claim(pid, text, note, technique, design):
-    CHECKS[pid] = dict(text=text, note=note, technique=technique, design=design)
-
 
 COMMON_NOTE = ("Trusted: Coq 8.16.1 kernel; the hand-written Gallina model is tied to /repo by a correspondence check "
                "(model evaluated by vm_compute inside Coq on the same inputs as the Python implementation, outputs "
                "compared inside Coq); exactness-grid argument for floats; Python harness (generators, rendering). "
                "Theorems closed under the global context unless the evidence lists stdlib axioms.")
 
-claim("C05",
-      "Machine-checked proof (Coq) over a Gallina model of the three recursive agglomerators and the flat_cluster "
-      "wrappers: partition, distinct keys, terminal condition (no two clusters within threshold) for every total "
-      "preorder and linkage; single linkage = connected components; complete linkage diameter bound. Model tied to "
-      "the code by exhaustive small-scope + random correspondence; verified boolean checkers also run on the "
-      "implementation's own outputs. Clause 'coincides with the textbook procedure on tie-free matrices' is "
-      "covered through the terminal/refinement theorems only (partial).",
-      COMMON_NOTE, "Coq proof over executable model + in-Coq correspondence check against the implementation",
-      "DESIGN.md 5/C05")
-claim("C10",
-      "Machine-checked proof (Coq): the merge step's choice is threshold-free, hence the run at t1 is a prefix of "
-      "the run at t2>=t1 and every t1-cluster lies inside a t2-cluster (all linkages, all matrices, ties included). "
-      "Correspondence as C05, run at threshold pairs; refinement checker on implementation outputs.",
-      COMMON_NOTE, "Coq proof over executable model + in-Coq correspondence check against the implementation",
-      "DESIGN.md 5/C10")
-
 
 def build():
     props = [json.loads(l) for l in open(os.path.join(HERE, "properties.jsonl"))]
+    claims = {}
+    for p in sorted(glob.glob(os.path.join(HERE, "harness", "claims", "C*.json"))):
+        c = json.load(open(p))
+        claims[c["property_id"]] = c
+    na_path = os.path.join(HERE, "harness", "claims", "not_applicable.json")
+    na = json.load(open(na_path)) if os.path.exists(na_path) else {}
     checks = []
     for p in props:
         pid = p["id"]
-        if pid in CHECKS:
-            c = CHECKS[pid]
+        if pid in claims:
+            c = claims[pid]
             checks.append({
                 "property_id": pid,
                 "quick_cmd": "./check %s quick" % pid,
@@ -48,12 +32,14 @@ def build():
                 "evidence_file": "/verif/evidence/%s.json" % pid,
                 "replay_cmd_template": "./check %s --replay {path}" % pid,
                 "engine": "coq-model",
-                "level_claimed": {"category": "proof", "text": c["text"], "design_ref": c["design"]},
-                "level_note": c["note"],
-                "technique": c["technique"],
+                "level_claimed": {"category": "proof", "text": c["text"],
+                                  "design_ref": c.get("design_ref", "DESIGN.md 5/" + pid)},
+                "level_note": c.get("note") or COMMON_NOTE,
+                "technique": c.get("technique", "Coq proof over executable model + in-Coq correspondence check "
+                                                "against the implementation"),
             })
-        elif pid not in NOT_APPLICABLE:
-            NOT_APPLICABLE[pid] = "not yet built in this revision of /verif (work in progress; see DESIGN.md section 8)"
+        elif pid not in na:
+            na[pid] = "not yet built in this revision of /verif (work in progress; see DESIGN.md section 8)"
     man = {
         "version": 1,
         "setup_cmd": "./setup.sh",
@@ -62,11 +48,11 @@ def build():
                   "baseline_off_cmd": "cd /repo && /venv/bin/python -m pytest -ra -q -p no:cacheprovider --timeout=900 "
                                       "--continue-on-collection-errors",
                   "source_commits": [], "add_only": True},
-        "engines": [{"name": "coq-model", "path": "/verif/coq", "serves_properties": sorted(CHECKS),
+        "engines": [{"name": "coq-model", "path": "/verif/coq", "serves_properties": sorted(claims),
                      "kind_free_text": "Coq 8.16.1 development: executable Gallina models + theorems (Props/Cxx.v); "
                                        "harness/ runs the implementation and compares with the model inside Coq"}],
         "checks": checks,
-        "not_applicable": [{"property_id": k, "reason": v} for k, v in sorted(NOT_APPLICABLE.items())],
+        "not_applicable": [{"property_id": k, "reason": v} for k, v in sorted(na.items()) if k not in claims],
         "notes": "See DESIGN.md. known_findings.json lists recorded findings and fixed defects.",
     }
     with open(os.path.join(HERE, "MANIFEST.json"), "w") as f:
